@@ -214,6 +214,27 @@ extern "C" void harness_main() {
     (void)copy.ModifyB().AddElement(Factory::Tuple({E0.real, E0.real}));
     sym_assert(lazy == eager, "modified-copy-of-lazy-leaves-original");
   }
+  // larger bases (the enumeration of k-combinations has more than one position to refill only from 4 elements on)
+  {
+    const int n = pick(6, "big-base-size");
+    std::vector<StructuredData> elems; std::vector<ref::Value> wantElems;
+    for (int i = 1; i <= n; ++i) { elems.push_back(Factory::Val(i)); wantElems.push_back(ref::MakeElem(i)); }
+    const StructuredData bigBase = Factory::Set(elems);
+    const ref::Value wantBase = ref::MakeSet(wantElems);
+    const StructuredData lazy = Factory::Boolean(bigBase);
+    const auto want = ref::Powerset(wantBase, 64);
+    sym_assert(want.has_value() && same(lazy, *want), "big-powerset-elements");
+    checkIteration(lazy, "big-powerset-each-once", "big-powerset-iteration-increasing");
+    int count = 0; for (const auto& e : lazy.B()) { (void)e; ++count; }
+    sym_assert(count == (1 << n) && lazy.B().Cardinality() == (1 << n), "big-powerset-cardinality");
+    std::vector<StructuredData> all; for (const auto& e : lazy.B()) all.push_back(e);
+    sym_assert(lazy == Factory::Set(all), "big-powerset-equals-enumerated");
+    if (n >= 2) {
+      const StructuredData lazyD = Factory::Decartian({bigBase, bigBase, Factory::SetV({1, 2})});
+      const auto wantD = ref::Product({wantBase, wantBase, ref::MakeSet({ref::MakeElem(1), ref::MakeElem(2)})}, 64);
+      if (wantD.has_value()) { sym_assert(same(lazyD, *wantD), "big-product-elements"); checkIteration(lazyD, "big-product-each-once", "big-product-iteration-increasing"); }
+    }
+  }
   sym_reach("lazy");
 #endif
 #ifdef WITNESS
